@@ -107,6 +107,15 @@ fn eval(c: &Case, out: &mut Out, oracle: bool) {
     out.count("n_requested", c.keys.len());
     out.count("n_known", c.known.len());
     out.count("answer_len", res.as_ref().map_or(-1, |v| v.len() as i64));
+    // the verified answer checker (Cert/SchemeCheck.v) on the implementation's list: the property
+    // fixes the set and "prerequisites first", not one order
+    if oracle {
+        if let Some(v) = &res {
+            let mut l = c.to_s("c12v").as_list().to_vec();
+            l.push(sexp::nums(v));
+            out.case(S::L(l).to_string(), "1".into(), nontrivial);
+        }
+    }
     if oracle {
         match &res {
             None => out.violation(
@@ -136,6 +145,13 @@ fn eval(c: &Case, out: &mut Out, oracle: bool) {
             sexp::nums(&c.known),
         ]);
         out.case(inp.to_string(), shown, false);
+        if oracle {
+            if let Some(v) = &res {
+                let mut l = c1.to_s("c12v").as_list().to_vec();
+                l.push(sexp::nums(v));
+                out.case(S::L(l).to_string(), "1".into(), false);
+            }
+        }
         if oracle {
             if let Some(v) = &res {
                 if let Some(msg) = spec_check(&c1, v) {
